@@ -1446,7 +1446,10 @@ where
             let info_sector =
                 InfoSector::create_from_bytes(info_block).map_err(Error::FormatError)?;
             volume.free_clusters_count = info_sector.free_clusters_count();
-            volume.next_free_cluster = info_sector.next_free_cluster();
+            // The hint is advisory; ignore one that points outside the volume
+            volume.next_free_cluster = info_sector
+                .next_free_cluster()
+                .filter(|c| c.0 < volume.cluster_count + RESERVED_ENTRIES);
 
             Ok(VolumeType::Fat(volume))
         }
